@@ -141,7 +141,7 @@ Proof.
         - rewrite Ei in Hk. injection Hk as <-. rewrite Eri, !andb_false_r. reflexivity.
         - destruct (Nat.leb_spec (S i) k); destruct (Nat.leb_spec i k); try lia; reflexivity. }
     pose proof (nth_wf _ _ _ Hw Ei) as Hwt.
-    pose proof (part_spec fn (x_q ti)) as P. pose proof (part_q_ok fn (x_q ti) (proj2 (proj2 Hwt))) as Hp.
+    pose proof (part_spec fn (x_q ti)) as P. pose proof (part_q_ok fn (x_q ti) (proj1 (proj2 (proj2 Hwt)))) as Hp.
     destruct (part fn (x_q ti)) as [[dr em] wt]. destruct Hp as [He Hwq]. destruct P as [_ [_ [_ [_ [_ [_ Ewt]]]]]].
     assert (Hw1 : Forall wf_trx (upd trxs i (fun t0 => set_q t0 wt))).
     { rewrite Forall_forall. intros u Hu. apply In_nth_error in Hu as [k Hk]. rewrite upd_nth in Hk. destruct (Nat.eqb i k) eqn:E.
